@@ -209,6 +209,7 @@ class TrialSeq:
         self.entries = {}  # fmt -> {site, fresh, fresh_detail, rewinds, acc_site, selected, sel_detail}
         self.stray = []  # (variant, site): a Format chosen without its own trial
         self.problems = []  # structural surprises (fail closed)
+        self.dispatcher = None  # form C: the function that runs the trial named by its Format argument
 
     def before(self, a, b):
         return a in self.order and b in self.order and self.order.index(a) < self.order.index(b)
@@ -542,6 +543,7 @@ def _build_dispatch(lib, ts, ids, disp, info):
         raise AnchorLost(f"the trial dispatcher {disp.name} is called from {len(sites)} sites")
     det, cbb, ct = sites[0]
     ts.driver, ts.form = det, "dispatch"
+    ts.dispatcher = disp
     # the Format handed to the dispatcher is the item of an Iterator::next over a constant array of Formats
     nexts = []
     for bb, t in det.calls():
